@@ -11,7 +11,7 @@ CONSTANTS
   MaxHttp = 0
   MaxTcp = 0
   Ticks = FALSE
-  EnvStateModules <- McOneMod
+  EnvStateModules <- McNone
   EnvMsgModules <- McMsgMods
   IoFaults = FALSE
   MaxCrash = 0
